@@ -12,6 +12,8 @@ struct Cp {
     name: String,
     /// the id the CHECKPOINT statement reported
     id: String,
+    /// the checkpoints listed just before this one was created (what the store image taken for it contains)
+    listed_before: Vec<usize>,
     battery: Battery,
     exist: Exist,
     /// the relational answers of the battery were recorded (false once the relational side is
@@ -304,17 +306,18 @@ impl Run<'_, '_> {
             self.stop = true;
             return Ok(());
         }
-        self.cps.push(Cp { name, id, battery: before, exist: self.ex.clone(), rel_valid: !self.rel_broken });
+        let listed_before = self.retained.clone();
+        self.cps.push(Cp { name, id, listed_before, battery: before, exist: self.ex.clone(), rel_valid: !self.rel_broken });
         self.retained.push(self.cps.len() - 1);
         while self.retained.len() > max {
             self.retained.remove(0);
             self.ctx.label("retention:eviction-expected");
         }
-        self.check_list("after-checkpoint")
+        self.check_list("after-checkpoint", None)
     }
 
     /// `CHECKPOINTS` lists exactly the retained checkpoints (most recent first when creation times differ).
-    fn check_list(&mut self, when: &'static str) -> Result<(), Fail> {
+    fn check_list(&mut self, when: &'static str, rolled_to: Option<usize>) -> Result<(), Fail> {
         let listed = match list_checkpoints(&mut self.w) {
             Ok(l) => l,
             Err(e) => {
@@ -356,13 +359,26 @@ impl Run<'_, '_> {
         let extra: Vec<&String> = names.iter().filter(|n| !want.contains(n)).collect();
         let max = self.case.max_cp as usize;
         let newest = want.first();
-        let sig = if when == "after-rollback" {
-            if !missing.is_empty() {
-                "checkpoint-record-lost-after-rollback".to_string()
-            } else if !extra.is_empty() {
-                "evicted-checkpoint-listed-again-after-rollback".to_string()
+        let sig = if let Some(target) = rolled_to {
+            // one recorded root cause explains exactly one list: the list of the moment the target's
+            // store image was taken (the checkpoint records live in the store that is rolled back)
+            let image: Vec<String> = self.cps[target].listed_before.iter().rev().map(|i| self.cps[*i].name.clone()).collect();
+            let explained = if self.case.spaced {
+                names == image
             } else {
-                "checkpoint-list-order-after-rollback".to_string()
+                let (mut a, mut b) = (names.clone(), image.clone());
+                a.sort();
+                b.sort();
+                a == b
+            };
+            if explained {
+                "checkpoint-record-lost-after-rollback".to_string()
+            } else if !missing.is_empty() {
+                "checkpoint-list-after-rollback:retained-checkpoint-missing".to_string()
+            } else if !extra.is_empty() {
+                "checkpoint-list-after-rollback:evicted-checkpoint-listed".to_string()
+            } else {
+                "checkpoint-list-after-rollback:not-most-recent-first".to_string()
             }
         } else if names.len() > max {
             format!("retention:more-than-limit-listed:{when}")
@@ -477,7 +493,7 @@ impl Run<'_, '_> {
         if self.stop {
             return Ok(());
         }
-        self.check_list("after-rollback")
+        self.check_list("after-rollback", Some(idx))
     }
 
     fn rollback_gone(&mut self, k: u8) -> Result<(), Fail> {
@@ -508,7 +524,7 @@ impl Run<'_, '_> {
             self.stop = true;
             return Ok(());
         }
-        self.check_list("after-refused-rollback")
+        self.check_list("after-refused-rollback", None)
     }
 
     // ------------------------------------------------------------------ the database keeps working
@@ -527,10 +543,11 @@ impl Run<'_, '_> {
             }
         };
         let is_ok = |a: &Ans, _: &Result<QueryResult, query_router::RouterError>| !a.is_err();
+        // a table that never existed before can be created and used, whatever happened to the others
+        let _ = step(&mut self.w, "relational", "create-fresh-table", "CREATE TABLE probe (pa INT, pb TEXT)", &is_ok);
+        let _ = step(&mut self.w, "relational", "insert-into-fresh-table", "INSERT INTO probe (pa, pb) VALUES (7, 'zed')", &is_ok);
+        let _ = step(&mut self.w, "relational", "select-from-fresh-table", "SELECT * FROM probe WHERE pa = 7", &|a, _| matches!(a, Ans::Set(v) if v.len() == 1 && v[0].contains("zed")));
         if !self.rel_broken {
-            let _ = step(&mut self.w, "relational", "create-table", "CREATE TABLE probe (pa INT, pb TEXT)", &is_ok);
-            let _ = step(&mut self.w, "relational", "insert", "INSERT INTO probe (pa, pb) VALUES (7, 'zed')", &is_ok);
-            let _ = step(&mut self.w, "relational", "select", "SELECT * FROM probe WHERE pa = 7", &|a, _| matches!(a, Ans::Set(v) if v.len() == 1 && v[0].contains("zed")));
             // every table that exists now takes a row and shows it
             let tables: Vec<u8> = self.ex.tables.iter().copied().collect();
             for t in tables {
